@@ -205,7 +205,13 @@ def main_check(pid, tier, seed, replay=None):
         if not ok:
             ctx.broken.append(f"translator:{tr.__name__}: {str(info)[:300]}")
     # 2. proofs
-    rc, out = core.lake_build(prop["modules"] + ["driver"], ctx.log)
+    rc0, out0 = core.lake_build(["driver"], ctx.log)
+    if rc0 != 0:
+        ctx.say(f"[{pid}] the Lean driver does not build:")
+        for e in re.findall(r"error: ([^\n]*)", out0)[:6]:
+            ctx.say("   ", e)
+        ctx.broken.append("driver-build (the executable model no longer compiles against the regenerated definitions)")
+    rc, out = core.lake_build(prop["modules"], ctx.log)
     build_ok = rc == 0
     failed_decls = []
     if not build_ok:
@@ -230,6 +236,8 @@ def main_check(pid, tier, seed, replay=None):
     if ctx.broken:
         nseeds += 2 if tier == "quick" else 6
     seeds = [seed + 7919 * k for k in range(nseeds)]
+    if rc0 != 0 and os.path.exists(core.DRIVER):
+        os.remove(core.DRIVER)          # never run a stale model
     if os.path.exists(core.DRIVER):
         for st in prop.get("streams", []):
             run_stream(ctx, prop, st, seeds)
